@@ -435,8 +435,11 @@ pub fn encode_with_dist_header_multi(terms: &[&OwnedTerm]) -> Result<Vec<u8>, En
     }
 
     if atom_set.is_empty() {
+        // still a distribution header: NumberOfAtomCacheRefs = 0 and no flag bytes
         let mut buf = BytesMut::new();
         buf.put_u8(VERSION);
+        buf.put_u8(DIST_HEADER);
+        buf.put_u8(0);
         for term in terms {
             encode_term(&mut buf, term)?;
         }
@@ -450,6 +453,13 @@ pub fn encode_with_dist_header_multi(terms: &[&OwnedTerm]) -> Result<Vec<u8>, En
     }
 
     let atoms: Vec<&Atom> = atom_set.iter().copied().collect();
+
+    // the header's length field for an atom is at most two bytes wide
+    if let Some(too_long) = atoms.iter().find(|a| a.name.len() > u16::MAX as usize) {
+        return Err(EncodeError::AtomTooLarge {
+            size: too_long.name.len(),
+        });
+    }
 
     let mut atom_index_map = HashMap::new();
     for (index, atom) in atoms.iter().enumerate() {
